@@ -10,6 +10,10 @@ dst = f"/verif/benign/{tag}-{i}"
 os.makedirs(dst, exist_ok=True)
 shutil.copy(f"{src}/benign{i}.diff", f"{dst}/patch.diff")
 meta = json.load(open(f"{src}/benign{i}.json"))
+if os.path.exists(f"{dst}/meta.json"):
+    prev = json.load(open(f"{dst}/meta.json"))
+    if prev.get("checks_run") and any(r["violation"] for r in prev["checks_run"].values()):
+        meta["first_evaluation"] = prev.get("first_evaluation") or prev["checks_run"]
 res = {}
 for c in checks:
     p = subprocess.run(f"/verif/tools_seed_eval.sh {dst}/patch.diff {c}", shell=True, stdout=subprocess.PIPE,
